@@ -133,7 +133,7 @@ theorem seriesCopy_fresh (st : Store) (s : Series) :
     aget (seriesCopy st s).1 (seriesCopy st s).2.dt = aget st s.dt := by
   refine ⟨?_, ?_, ?_, ?_, ?_, ?_⟩
   · intro i hi
-    simp only [seriesCopy, Series.ids, List.mem_cons, List.mem_nil_iff, or_false] at hi
+    simp [seriesCopy, Series.ids] at hi
     omega
   · simp [seriesCopy, Series.ids]
   · intro i hi; exact aget_append_left _ _ _ hi
@@ -163,8 +163,7 @@ theorem series_arith_preserves (st : Store) (f : Int → Int → Int) (s : Serie
     rw [aget_append_left _ _ _ (by simp; omega)]
     exact aget_append_left _ _ _ hi
   · intro i hi
-    simp only [seriesArith, seriesCopy, Series.ids, List.mem_cons, List.mem_nil_iff, or_false,
-      List.length_append, List.length_cons, List.length_nil] at hi
+    simp [seriesArith, seriesCopy, Series.ids] at hi
     omega
 
 /-- and the result's data is the element-wise operation on the operands' data -/
@@ -172,12 +171,39 @@ theorem series_arith_value (st : Store) (f : Int → Int → Int) (s : Series) (
     (ho : other < st.length) :
     aget (seriesArith st f s other).1 (seriesArith st f s other).2.data
       = List.zipWith f (aget st s.data) (aget st other) := by
+  have h2 := aget_append_left st
+    [aget st s.data, aget st s.t0, aget st s.dt, aget st s.info, timeContent st s] other ho
   simp only [seriesArith, seriesCopy]
-  have h1 : aget (st ++ [aget st s.data, aget st s.t0, aget st s.dt, aget st s.info]) st.length = aget st s.data := by
-    simp [aget, List.getD]
-  have h2 := aget_append_left st [aget st s.data, aget st s.t0, aget st s.dt, aget st s.info] other ho
-  simp only [aget, List.getD] at h1 h2 ⊢
+  simp only [aget, List.getD] at h2 ⊢
   simp [h2]
+
+/-- `series_arith_shares_nothing`: in BOTH lazily-initialised states of the operand (`.time` never
+read: `s.time = none`; already read: `s.time = some i`), every object of the result of a copy or of
+`+ - * /` — data, t0, interval, metadata AND its time axis — is new: its id lies beyond the old
+store, so it is none of the operand's objects, and overwriting any of them (any in-place change
+of the result) leaves every pre-existing object, the operand's cached axis included, unchanged -/
+theorem series_arith_shares_nothing (st : Store) (f : Int → Int → Int) (s : Series) (other : Nat) :
+    (∀ j ∈ (seriesCopy st s).2.ids, st.length ≤ j) ∧
+    (∀ j ∈ (seriesArith st f s other).2.ids, st.length ≤ j) ∧
+    ((seriesArith st f s other).2.time.isSome ∧ (seriesCopy st s).2.time.isSome) ∧
+    (∀ j ∈ (seriesArith st f s other).2.ids, ∀ (v : List Int) (i : Nat), i < st.length →
+      aget ((seriesArith st f s other).1.set j v) i = aget st i) := by
+  refine ⟨(seriesCopy_fresh st s).1, (series_arith_preserves st f s other).2, ⟨rfl, rfl⟩, ?_⟩
+  intro j hj v i hi
+  have hge := (series_arith_preserves st f s other).2 j hj
+  rw [aget_set_ne _ _ _ _ (by omega)]
+  exact (series_arith_preserves st f s other).1 i hi
+
+/-- the same statement spelled out for an operand whose `.time` HAS been read: the cached axis
+object `i` of the operand is not the result's, and survives any change of the result -/
+theorem series_time_read_not_shared (st : Store) (f : Int → Int → Int) (s : Series) (other i : Nat)
+    (hs : s.time = some i) (hi : i < st.length) :
+    (seriesArith st f s other).2.time ≠ some i ∧ (seriesCopy st s).2.time ≠ some i ∧
+    aget (seriesCopy st s).1 ((seriesCopy st s).2.time.getD 0) = aget st i := by
+  refine ⟨?_, ?_, ?_⟩
+  · simp only [seriesArith, seriesCopy]; intro h; injection h with h; omega
+  · simp only [seriesCopy]; intro h; injection h with h; omega
+  · simp [seriesCopy, timeContent, hs, aget, List.getD]
 
 /-- an in-place series operation writes the series' own data buffer and nothing else -/
 theorem series_inplace_frame (st : Store) (f : Int → Int → Int) (s : Series) (other : Nat) (i : Nat)
@@ -221,7 +247,7 @@ theorem binop_before_counterexample :
 example : (binop current [[1, 2], [7]] ⟨[5, 5], .ns, false⟩ (.ar .add) (.arr64 0))
     = ([[1, 2], [7]], .time ⟨[1005, 2005], .ns, false⟩) := by decide
 
-example : (seriesArith [[1, 2], [0], [1], [7], [10, 20]] (· + ·) ⟨0, 1, 2, 3⟩ 4).1.getD 9 [] = [11, 22] := by
+example : (seriesArith [[1, 2], [0], [1], [7], [10, 20]] (· + ·) ⟨0, 1, 2, 3, none⟩ 4).1.getD 10 [] = [11, 22] := by
   decide
 
 end Nitime.C16.Props
